@@ -97,9 +97,13 @@ def quiet(rig):
     return not rig.callbacks and not rig.warnings_so_far() and not rig.log_records and not rig.loop_errors
 
 
+CALLBACK_FORMS = ["bound-method", "function", "partial", "unreferenced-owner", "falsy-callable"]
+
+
 async def send_batch(datagrams, silence=None):
     rig = udptx.Rig(1)
-    await rig.start()
+    # whether anything is said about a datagram must not depend on the shape of the user's callback
+    await rig.start(CALLBACK_FORMS[(len(datagrams) + sum(len(d) for d in datagrams[:3])) % len(CALLBACK_FORMS)])
     try:
         dead = None
         try:
